@@ -717,7 +717,7 @@ func jpfType(arguments []interface{}) (interface{}, error) {
 	if _, ok := arg.(map[string]interface{}); ok {
 		return "object", nil
 	}
-	if arg == nil {
+	if isNull(arg) {
 		return "null", nil
 	}
 	if arg == true || arg == false {
@@ -855,7 +855,7 @@ func jpfToNumber(arguments []interface{}) (interface{}, error) {
 	if _, ok := arg.(map[string]interface{}); ok {
 		return nil, nil
 	}
-	if arg == nil {
+	if isNull(arg) {
 		return nil, nil
 	}
 	if arg == true || arg == false {
@@ -865,7 +865,7 @@ func jpfToNumber(arguments []interface{}) (interface{}, error) {
 }
 func jpfNotNull(arguments []interface{}) (interface{}, error) {
 	for _, arg := range arguments {
-		if arg != nil {
+		if !isNull(arg) {
 			return arg, nil
 		}
 	}
